@@ -867,29 +867,81 @@ func (in *interp) invoke(fr *frame, recv iface, name string, args ...value) valu
 }
 
 func registerElection(e *Engine) {
-	// RunOrDie: model of one successful pass of the elector: Get; Create if the record is
-	// missing else Update; on success OnStartedLeading(ctx) is called; then it returns
-	// (the renew loop is not modelled).
-	e.reg("k8s.io/client-go/tools/leaderelection.RunOrDie", func(in *interp, fr *frame, a []value) value {
-		lec := a[1].(structure)
+	const lePkg = "k8s.io/client-go/tools/leaderelection"
+	recT := func(in *interp) types.Type {
+		return in.eng.namedType("k8s.io/client-go/tools/leaderelection/resourcelock", "LeaderElectionRecord")
+	}
+	// one acquire pass of the elector (tryAcquireOrRenew without the lease clock: the harness lets
+	// the old lease run out): Get; the record found becomes the *observed* record (from then on
+	// IsLeader() compares its holder with the lock's identity); Create if the record is missing,
+	// else Update; on success the written record is the observed one and OnStartedLeading(ctx) is
+	// called. The steps are visible operations; the renew loop is not modelled.
+	pass := func(in *interp, fr *frame, lec structure, observe func(rec value)) {
 		lock := lec[0].(iface)
 		cb := lec[4].(structure)
-		recT := in.eng.namedType("k8s.io/client-go/tools/leaderelection/resourcelock", "LeaderElectionRecord")
-		rec := in.zero(recT).(structure)
+		rec := in.zero(recT(in)).(structure)
 		rec[0] = in.invoke(fr, lock, "Identity")
 		rec[1] = in.mkInt(8)
 		got := in.invoke(fr, lock, "Get").(tuple)
 		var err value
 		if in.isNil(got[1]) {
+			if observe != nil {
+				if p, ok := got[0].(*value); ok && p != nil {
+					observe(copyVal(*p))
+				}
+			}
+			in.sch.yield("elector:observed")
 			err = in.invoke(fr, lock, "Update", rec)
 		} else {
+			in.sch.yield("elector:absent")
 			err = in.invoke(fr, lock, "Create", rec)
 		}
 		if in.isNil(err) {
+			if observe != nil {
+				observe(copyVal(rec))
+			}
+			in.sch.yield("elector:acquired")
 			ctxv, _ := in.newCtx(nil)
 			in.call(fr, 0, cb[0], []value{ctxv})
 		}
+	}
+	e.reg(lePkg+".RunOrDie", func(in *interp, fr *frame, a []value) value {
+		pass(in, fr, a[1].(structure), nil)
 		return nil
+	})
+	// the same pass through an elector object (NewLeaderElector / Run / IsLeader / GetLeader)
+	leT := e.namedTypeOrNil(lePkg, "LeaderElector")
+	if leT == nil {
+		return
+	}
+	e.reg(lePkg+".NewLeaderElector", func(in *interp, fr *frame, a []value) value {
+		le := in.zero(leT).(structure)
+		le[fieldIndex(leT, "config")] = copyVal(a[0])
+		var v value = le
+		return tuple{&v, iface{}}
+	})
+	leOf := func(v value) structure { return (*v.(*value)).(structure) }
+	e.reg("(*"+lePkg+".LeaderElector).Run", func(in *interp, fr *frame, a []value) value {
+		p := a[0].(*value)
+		lec := leOf(a[0])[fieldIndex(leT, "config")].(structure)
+		pass(in, fr, lec, func(rec value) {
+			le := (*p).(structure)
+			le[fieldIndex(leT, "observedRecord")] = rec
+			in.sch.wepoch++
+		})
+		return nil
+	})
+	holder := func(in *interp, le structure) value {
+		return le[fieldIndex(leT, "observedRecord")].(structure)[0]
+	}
+	e.reg("(*"+lePkg+".LeaderElector).IsLeader", func(in *interp, fr *frame, a []value) value {
+		le := leOf(a[0])
+		lock := le[fieldIndex(leT, "config")].(structure)[0].(iface)
+		in.sch.yieldRead("elector:IsLeader")
+		return in.equals(types.Typ[types.String], holder(in, le), in.invoke(fr, lock, "Identity"))
+	})
+	e.reg("(*"+lePkg+".LeaderElector).GetLeader", func(in *interp, fr *frame, a []value) value {
+		return holder(in, leOf(a[0]))
 	})
 }
 
